@@ -4,7 +4,11 @@ VARIABLES k, v, done
 Init == k \in Kinds /\ v \in V /\ done = FALSE
 Next == ~done /\ done' = TRUE /\ UNCHANGED <<k, v>>
 Spec == Init /\ [][Next]_<<k, v, done>>
-Emit == done => PrintT(ToJson([k |-> k, v |-> v, out |-> Convert(k, v), well |-> WellTyped(k, v), ill |-> IllTyped(k, v), d1 |-> D1(k, v), d2 |-> D2(k, v)]))
+RECURSIVE S2Q(_)
+S2Q(S) == IF S = {} THEN <<>> ELSE LET x == CHOOSE y \in S : TRUE IN <<x>> \o S2Q(S \ {x})
+Over == {[kp |-> p[1], out |-> ConvertOver(p[1], k, v), ill |-> (IllTyped(p[1], v) \/ IllTyped(k, v))] : p \in {q \in SameClass : q[2] = k}}
+Emit == done => PrintT(ToJson([k |-> k, v |-> v, out |-> Convert(k, v), well |-> WellTyped(k, v), ill |-> IllTyped(k, v), d1 |-> D1(k, v), d2 |-> D2(k, v), over |-> S2Q(Over)]))
+LawD3 == done => \A p \in SameClass : p[2] = k => D3(p[1], k, v)
 LawD1 == done => D1(k, v)
 LawD2 == done => D2(k, v)
 =============================================================================
